@@ -17,6 +17,8 @@ func ops(s ...string) []pwOp {
 		switch {
 		case len(x) > 4 && x[:4] == "add:":
 			o = pwOp{Kind: "add", Pod: x[4:]}
+		case len(x) > 6 && x[:6] == "addce:":
+			o = pwOp{Kind: "addce", Pod: x[6:]}
 		case len(x) > 5 && x[:5] == "addc:":
 			o = pwOp{Kind: "addc", Pod: x[5:]}
 		case len(x) > 4 && x[:4] == "del:":
@@ -86,7 +88,7 @@ func c01Scenarios(thorough bool) []pwScenario {
 				pwScenario{Name: "S1-add||add/" + n, Cfg: one, Threads: [][]pwOp{ops("add:a"), ops("add:b")}, Budget: [4]int{pb, 1, 0, 0}},
 				pwScenario{Name: "S2-add;del||add/" + n, Cfg: one, Threads: [][]pwOp{ops("add:a", "del:a"), ops("add:b")}, Budget: [4]int{pb, 1, 0, 0}},
 				pwScenario{Name: "S3-add;add||add/" + n, Cfg: one, Threads: [][]pwOp{ops("add:a", "add:a"), ops("add:b")}, Budget: [4]int{pb, 1, 0, 0}},
-				pwScenario{Name: "S6-addcancel||add/" + n, Cfg: one, Threads: [][]pwOp{ops("addc:a"), ops("cancel:a"), ops("add:b")}, Budget: [4]int{pb, 0, 0, 0}},
+				pwScenario{Name: "S6-addcancel||add/" + n, Cfg: one, Threads: [][]pwOp{ops("addce:a"), ops("add:b")}, Budget: [4]int{pb - 1, 0, 0, 1}},
 			)
 			if st.v4 && st.v6 {
 				// asymmetric idle sets: more idle IPv4 than IPv6 and vice versa (a waiter holds one family while waiting for the other)
